@@ -29,11 +29,13 @@ struct Case {
     px: Vec<Px>,
     crop: Option<(usize, usize, usize, usize)>,
     bg: Option<[u8; 3]>,
+    /// the pixels are stored column by column and the image is the transposed view of that buffer
+    transposed: bool,
 }
 
 impl Case {
     fn new(sub: &'static str, h: usize, w: usize, px: Vec<Px>) -> Self {
-        Case { sub, h, w, px, crop: None, bg: None }
+        Case { sub, h, w, px, crop: None, bg: None, transposed: false }
     }
 
     /// what a viewer sees: (height, width, row-major pixels)
@@ -59,7 +61,17 @@ impl Case {
             let [r, g, b, a] = px[p.row * w + p.col];
             RGBA::new(r, g, b, a)
         });
-        let img = Image::from(surf);
+        let img = if self.transposed {
+            let h = self.h;
+            let stored = SurfaceOwned::new_with(Size::new(self.w, self.h), |p| {
+                let [r, g, b, a] = px[p.col * w + p.row];
+                RGBA::new(r, g, b, a)
+            });
+            let _ = h;
+            Image::new(surf_n_term::Surface::transpose(stored))
+        } else {
+            Image::from(surf)
+        };
         match self.crop {
             None => img,
             Some((r0, r1, c0, c1)) => img.crop(r0..r1, c0..c1),
@@ -72,6 +84,7 @@ impl Case {
             "sub": self.sub, "h": self.h, "w": self.w, "rgba_hex": hex(&bytes),
             "crop_rows_cols": self.crop.map(|(a, b, c, d)| json!([a, b, c, d])),
             "bg": self.bg.map(|b| json!(b)),
+            "transposed": self.transposed,
         })
     }
 
@@ -94,7 +107,7 @@ impl Case {
             Some(a) if a.len() == 3 => Some([a[0].as_u64().unwrap_or(0) as u8, a[1].as_u64().unwrap_or(0) as u8, a[2].as_u64().unwrap_or(0) as u8]),
             _ => None,
         };
-        Ok(Case { sub: "replay", h, w, px, crop, bg })
+        Ok(Case { sub: "replay", h, w, px, crop, bg, transposed: v["transposed"].as_bool().unwrap_or(false) })
     }
 }
 
@@ -220,6 +233,31 @@ fn check(case: &Case, handler: &mut SixelImageHandler) -> Outcome {
                             if fresh { "fresh" } else { "same" }, sink.data.len(), first.len()
                         ),
                     );
+                }
+            }
+        }
+    }
+    // erase at a position and erase everywhere (neither emits anything for sixel), then draw again: identical bytes
+    {
+        let mut scratch = vec![];
+        let mut third = vec![];
+        let mut fourth = vec![];
+        let ok = catch(|| {
+            let a = handler.erase(&mut scratch, &img, Some(Position::new(0, 0))).is_ok();
+            let b = handler.draw(&mut third, &img, Position::new(0, 0)).is_ok();
+            let c = handler.erase(&mut scratch, &img, None).is_ok();
+            let d = handler.draw(&mut fourth, &img, Position::new(1, 1)).is_ok();
+            a && b && c && d
+        });
+        match ok {
+            Err(p) => add(&p.key(), format!("erase / draw panicked: {} ({}:{})", p.message, p.file, p.line)),
+            Ok(false) => add("draw:error-result", "erase or draw returned Err while writing to a Vec".into()),
+            Ok(true) => {
+                if third != first {
+                    add("redraw:bytes-differ-after-erase", "drawing the image again after erase(image, Some(position)) emits other bytes".into());
+                }
+                if fourth != first {
+                    add("redraw:bytes-differ-after-erase-all", "drawing the image again after erase(image, None) emits other bytes".into());
                 }
             }
         }
@@ -478,6 +516,19 @@ fn fixed_cases(tier: Tier) -> Vec<Case> {
             let px: Vec<Px> = (0..12).map(|i| if code >> (i % 6) & 1 == 1 { [0, 0, 0, 0] } else { [200, 100 + 10 * (i as u8 / 6), 50, 255] }).collect();
             let mut case = Case::new("transparent-black", 6, 2, px);
             case.bg = bg;
+            v.push(case);
+        }
+    }
+    // images whose storage is column-major (the transposed view of a buffer), plain and cropped
+    for (h, w) in [(6usize, 1usize), (6, 2), (6, 5), (7, 3), (12, 4), (13, 7)] {
+        let px: Vec<Px> = (0..h * w).map(unique_colour).collect();
+        let mut case = Case::new("transposed", h, w, px.clone());
+        case.transposed = true;
+        v.push(case);
+        if h >= 8 && w >= 3 {
+            let mut case = Case::new("transposed-crop", h, w, px);
+            case.transposed = true;
+            case.crop = Some((1, h - 1, 1, w));
             v.push(case);
         }
     }
